@@ -533,13 +533,14 @@ def build_network(cfg):
     nn = len(nodes)
     classes = cfg["classes"]
     cnames = sorted(classes)
+    rnames = list(reversed(cnames))   # per-class dicts are built in reverse-sorted key order (valid input)
     K = cfg.get("K")
     arr, srv, bat, ren, rout, baulk, prio = {}, {}, {}, {}, {}, {}, {}
     any_bat = any("batch" in c for c in classes.values())
     any_ren = any("renege" in c for c in classes.values())
     any_baulk = any("baulk" in c for c in classes.values())
     any_route = True   # always install a monitored top-level router (default: all-zero transition matrix)
-    for cn in cnames:
+    for cn in rnames:
         c = classes[cn]
         arr[cn] = []
         for i in range(nn):
@@ -595,13 +596,13 @@ def build_network(cfg):
             m = n.get("class_change")
             if m is None:
                 m = {a: {b: (1.0 if a == b else 0.0) for b in cnames} for a in cnames}
-            ccm.append({a: {b: float(m[a][b]) for b in cnames} for a in cnames})
+            ccm.append({a: {b: float(m[a][b]) for b in reversed(cnames)} for a in reversed(cnames)})
         kw["class_change_matrices"] = ccm
     cct = {}
-    for cn in cnames:
+    for cn in rnames:
         row = classes[cn].get("cct")
         if row:
-            cct[cn] = {to: Menu("cct", 0, cn + ">" + to, vals) for to, vals in row.items()}
+            cct[cn] = {to: Menu("cct", 0, cn + ">" + to, vals) for to, vals in sorted(row.items(), reverse=True)}
     if cct:
         kw["class_change_time_distributions"] = cct
     if any(n.get("ps_threshold") for n in nodes):
